@@ -313,7 +313,10 @@ def run_server(case, st):
                              repr(sim.cb_log[len(cb_before):])[:200])
             st.outcome(f"refused 0x{code:08X}")
             # follow-up: each successful transfer still works (the refusal did not poison the server)
-            for n, post in enumerate(PRE):
+            # (order rotates with refusal and history so that every follow-up comes first somewhere: an earlier
+            # follow-up can heal what the refusal left behind)
+            rot = (ri + len(hist)) % len(PRE)
+            for n, post in enumerate(PRE[rot:] + PRE[:rot]):
                 do_pre(sim, post, 8 + n, st, dict(rc, followup=post))
                 st.transitions += 1
     st.sample({"refusals": [REFUSALS[i][0] for i in case["refusals"][:3]], "histories": len(case["hists"])}, cap=4)
